@@ -12,11 +12,18 @@ RULE = ("readers R in 1..3 (real threads running the real SharedDictDataset.__ge
         "shared-dict-operation granularity with preemption bound 0,1,2,... (unbounded where the count allows); sequential "
         "histories (no concurrency, readers take turns): all sequences of (reader, op) with op in {get0, get1, clear} of length <= 4 "
         "for 1 and 2 readers and <= 3 for 3 readers, with exact load accounting over all readers; readers are copies of ONE cache "
-        "object (fork picture: private attributes duplicated, manager dicts shared); states = distinct final "
+        "object (fork picture: private attributes duplicated, manager dicts shared), also with a wrapped dataset whose first load of "
+        "every sample fails (the error must reach the caller, nothing may be cached, the retry loads); states = distinct final "
         "(cache content, load counters) states, transitions = scheduled shared-dict operations; SchedDict is bound to the real "
         "multiprocessing Manager dict by replaying all operation sequences of depth <= 3 against both")
 
 PAYLOADS = ("int", "tuple", "tensor", "dict", "list", "falsy")
+FLAKY = [False]  # True (sequential histories only): the first load of every sample fails (an I/O error of the wrapped dataset)
+
+
+class LoadError(Exception):
+    pass
+
 TRANSFORMS = ("none", "pure", "inplace")
 
 
@@ -99,6 +106,8 @@ class Base:
 
     def __getitem__(self, i):
         self.loads.append(i)
+        if FLAKY[0] and self.loads.count(i) == 1:
+            raise LoadError(i)
         return payload(self.kind, i)
 
 
@@ -250,10 +259,19 @@ def sequential_check(ops, kind, tkind, R=1):
                     return f"clear_raised:{type(e).__name__}", f"ops {ops} step {k}: {e!r}"
                 cached = set()
                 continue
+            will_fail = FLAKY[0] and op not in cached and r.dataset.loads.count(op) == 0
             try:
                 v = r[op]
+            except LoadError as e:
+                if not will_fail:
+                    return "load_error_not_expected", f"ops {ops} step {k}: {e!r}"
+                if r.dataset.loads[before[who]:] != [op]:
+                    return "failed_load_not_exactly_one_attempt", f"ops {ops} step {k}: loads {r.dataset.loads[before[who]:]}"
+                continue  # the error of the wrapped dataset reaches the caller; nothing is cached
             except Exception as e:
                 return f"access_raised:{type(e).__name__}", f"ops {ops} step {k}: {e!r}"
+            if will_fail:
+                return "load_error_swallowed", f"ops {ops} step {k}: the wrapped dataset raised, the cache returned {v!r}"
             if not same(v, apply_expected(tkind, payload(kind, op))):
                 return "value_differs_from_wrapped_dataset", f"ops {ops} step {k}: {v!r}"
             loaded = r.dataset.loads[before[who]:]
@@ -332,17 +350,22 @@ def seq_task(args):
             for ops in itertools.product(alphabet, repeat=L):
                 if R > 1 and len({w for w, _ in ops}) < 2:
                     continue  # only one reader acts: already covered with fewer readers
-                p.evaluations += 1
-                p.traces += 1
-                p.transitions += L
-                k, info = sequential_check(ops, kind, tkind, R)
-                if k:
-                    p.violation(f"C19:sequential:{k}|readers={'1' if R == 1 else 'many'}",
-                                dict(sequential=True, ops=[list(o) for o in ops], readers=R, payload=kind, transform=tkind),
-                                f"payload={kind} transform={tkind} readers={R}: {info}")
-                else:
-                    p.state(("seq", kind, R, ops, info))
-                    p.observe(("seq", kind, tkind, R, ops))
+                for flaky in ((False, True) if (R <= 2 and kind in ("int", "list")) else (False,)):
+                    p.evaluations += 1
+                    p.traces += 1
+                    p.transitions += L
+                    FLAKY[0] = flaky
+                    try:
+                        k, info = sequential_check(ops, kind, tkind, R)
+                    finally:
+                        FLAKY[0] = False
+                    if k:
+                        p.violation(f"C19:sequential:{k}|readers={'1' if R == 1 else 'many'}{'|failing_loads' if flaky else ''}",
+                                    dict(sequential=True, ops=[list(o) for o in ops], readers=R, payload=kind, transform=tkind, flaky=flaky),
+                                    f"payload={kind} transform={tkind} readers={R} failing_first_loads={flaky}: {info}")
+                    else:
+                        p.state(("seq", kind, R, ops, info, flaky))
+                        p.observe(("seq", kind, tkind, R, ops, flaky))
     return p
 
 
@@ -416,7 +439,11 @@ def replay(case):
     if case.get("sequential"):
         ops = tuple((int(o[0]), o[1] if o[1] == "clear" else int(o[1])) if isinstance(o, list) else (0, o if o == "clear" else int(o))
                     for o in case["ops"])
-        k, info = sequential_check(ops, case["payload"], case["transform"], int(case.get("readers", 1)))
+        FLAKY[0] = bool(case.get("flaky"))
+        try:
+            k, info = sequential_check(ops, case["payload"], case["transform"], int(case.get("readers", 1)))
+        finally:
+            FLAKY[0] = False
         return None if k is None else f"{k}: {info}"
     progs = tuple(tuple(o if o == "clear" else int(o) for o in pr) for pr in case["programs"])
     res = run_schedule(progs, case["payload"], case["transform"], Chooser(tuple(case["schedule"])), case.get("bound"))
